@@ -117,6 +117,8 @@ MetasStd == { <<1, 0, 0>>,                    \* empty dictionary
               <<1, 2, 0, 1, 2, 98, 97>>,      \* unsorted "b", "a"
               <<1, 2, 0, 1, 2, 97, 97>> }     \* unsorted, duplicate "a", "a"
 
+MetasQuick == { <<1, 0, 0>>, <<17, 2, 0, 1, 2, 97, 98>>, <<1, 2, 0, 1, 2, 97, 97>> }
+
 VU_quick == { [alpha |-> {0, 1, 2, 3, 5, 12, 97, 195}, maxlen |-> 4],
               [alpha |-> {0, 1, 2, 3}, maxlen |-> 7] }
 MU_quick == { [alpha |-> {0, 1, 2, 195, 169}, maxlen |-> 7],
